@@ -141,7 +141,7 @@ pub fn mds_multiply_freq(state: [u64; 12]) -> (r: [u64; 12])
 //@before @start
     proof { lemma_freq_consts(); }
 //@mutant swap_blocks block1\\(\\[u0, u4, u8\\] ==> block1([u4, u0, u8]
-//@mutant wrong_perm \\[s0, s3, s6, s9\\] = ifft4_real_unreduced\\(\\(v0, v1, v2\\)\\) ==> [s0, s3, s6, s9] = ifft4_real_unreduced((v0, v1, v6))
+//@mutant wrong_perm ifft4_real_unreduced\\(\\(v0, v1, v2\\)\\) ==> ifft4_real_unreduced((v0, v1, v6))
 //@end
 
 
